@@ -13,6 +13,7 @@ pub mod c08;
 pub mod c13;
 pub mod c14;
 pub mod c15;
+pub mod c16;
 pub mod c18;
 
 #[derive(Clone, Copy, Debug, PartialEq)]
@@ -87,6 +88,8 @@ pub fn lookup(id: &str) -> Option<Box<dyn Prop>> {
         "C13" => Some(Box::new(c13::C13)),
         "C14" => Some(Box::new(c14::C14)),
         "C15" => Some(Box::new(c15::C15)),
+        "C16" => Some(Box::new(c16::C16)),
+        "C19" => Some(Box::new(c16::C19)),
         "C18" => Some(Box::new(c18::C18)),
         _ => None,
     }
